@@ -377,8 +377,57 @@ func shapeDelete(k []byte, rev int64) Txn {
 }
 func shapeDeleteU(k []byte) Txn { return Txn{Succ: []Op{opGet(k), opDel(k)}} }
 
+// existing picks a key the client believes present (if any), else any key
+func (g *gen) existing() []byte {
+	var xs [][]byte
+	for _, k := range g.keys {
+		if g.cur[string(k)] != 0 {
+			xs = append(xs, k)
+		}
+	}
+	if len(xs) == 0 {
+		return g.key()
+	}
+	return xs[g.r.Intn(len(xs))]
+}
+
 func (g *gen) supportedTxn() (Txn, string) {
 	k := g.key()
+	if g.r.Chance(5, 6) {
+		// mostly the requests a client would send: updates and deletes of keys it has seen
+		switch g.r.Intn(10) {
+		case 0, 1, 2:
+			return shapeCreate(k, g.val()), "create"
+		case 3, 4, 5, 6:
+			k = g.existing()
+			rev := g.cur[string(k)]
+			if g.r.Chance(1, 4) {
+				rev = g.expect(k)
+			}
+			if rev == 0 && g.r.Chance(2, 3) {
+				return shapeCreate(k, g.val()), "create"
+			}
+			return shapeUpdate(k, g.val(), rev), "update"
+		case 7, 8:
+			k = g.existing()
+			rev := g.cur[string(k)]
+			if g.r.Chance(1, 4) {
+				if s := g.seen[string(k)]; len(s) > 0 {
+					rev = s[g.r.Intn(len(s))]
+				}
+			}
+			if rev == 0 {
+				return shapeCreate(k, g.val()), "create"
+			}
+			return shapeDelete(k, rev), "delete"
+		default:
+			k = g.existing()
+			if g.cur[string(k)] == 0 {
+				return shapeCreate(k, g.val()), "create"
+			}
+			return shapeDeleteU(k), "delete-unguarded"
+		}
+	}
 	switch g.r.Intn(10) {
 	case 0, 1, 2:
 		return shapeCreate(k, g.val()), "create"
@@ -418,7 +467,7 @@ func (g *gen) supportedRange(curRev int64, seenRevs []int64) (Rng, string) {
 		}
 		r := Rng{Key: a, End: b}
 		if g.r.Chance(1, 2) {
-			r.Limit = int64(1 + g.r.Intn(4))
+			r.Limit = int64(1 + g.r.Intn(3))
 		}
 		if g.r.Chance(1, 4) && len(seenRevs) > 0 {
 			r.Rev = seenRevs[g.r.Intn(len(seenRevs))]
@@ -670,8 +719,8 @@ type plan struct {
 func runHistory(s *sut, w *lib.Writer, idx int, rnd *lib.Rand, pl plan) {
 	ns := []byte(fmt.Sprintf("/h%05d/", idx))
 	g := &gen{r: rnd, ns: ns, seen: map[string][]int64{}, cur: map[string]int64{}}
-	pool := []string{"a", "b", "c", "ab", "b/x"}
-	for _, p := range pool[:3+rnd.Intn(3)] {
+	pool := []string{"a", "b", "c", "ab", "b/x", "d", "e"}
+	for _, p := range pool[:3+rnd.Intn(5)] {
 		g.keys = append(g.keys, append(append([]byte{}, ns...), p...))
 	}
 	base := s.be.GetCurrentRevision()
@@ -757,6 +806,13 @@ func runHistory(s *sut, w *lib.Writer, idx int, rnd *lib.Rand, pl plan) {
 			}
 		}
 	} else {
+		if !pl.mutated || rnd.Chance(1, 2) {
+			for _, k := range g.keys {
+				if rnd.Chance(2, 3) {
+					doTxn(shapeCreate(k, g.val()), "create")
+				}
+			}
+		}
 		for i := 0; i < pl.nOps; i++ {
 			if rnd.Chance(2, 5) {
 				r, l := g.supportedRange(int64(s.be.GetCurrentRevision()), seenRevs)
